@@ -522,7 +522,7 @@ package pdf
 
 // ---- strings: writing never modifies the caller's String (C02), buffer indices stay in range ----
 //@ func formatString (w, s, opt) (err)
-//@   tags C01 C02
+//@   tags C01 C02 C09 C10 C11
 //@   requires w != nil && refof(w) != 0
 //@   assigns w.log
 //@   loop 3: invariant 0 <= used && used <= 8 && w != nil
